@@ -333,6 +333,23 @@ def describe(r):
     return r
 
 
+LOCK_NAMES = {"LogicalLinkController.__init__": "llc.lock",
+              "TransmissionControlObject.__init__": "socket.lock"}
+
+
+def lock_name(k):
+    return "none" if k is None else LOCK_NAMES.get(k.made, k.made)
+
+
+def deadlock_text(e):
+    """app-holds=<lock the link needs>+wants=<lock>:link-holds=..+needs=.."""
+    return "app-holds=%s+%s:link-holds=%s+needs=%s@%s" % (
+        lock_name(e.held),
+        "sleeps" if e.wanted is None else "wants=" + lock_name(e.wanted),
+        ",".join(sorted(set(lock_name(k) for k in e.link_holds))) or "none",
+        lock_name(e.held), e.site)
+
+
 def window(S):
     """where the last link step ran relative to the application call"""
     if not S.ran:
@@ -360,7 +377,12 @@ def run_app(S, fn, what, failures=None):
     except coop.LinkBlocked as e:
         label = "link-thread-blocked:%s:%s" % (S.ran[-1][0], e.site)
     except coop.CoopDeadlock as e:
-        label = "deadlock:%s:link-wants-lock-at:%s" % (what, e.site)
+        label = "deadlock:%s:%s" % (what, deadlock_text(e))
+    except coop.Unrepresentable:
+        S.sx.assume(False, "C09: schedules in which a link step has to wait "
+                    "for a lock the application thread owns without a cycle "
+                    "(the application thread would go on first) are not "
+                    "explored - link steps are atomic")
     except coop.Livelock as e:
         label = "livelock:%s:%s" % (what, e.args[0])
     except Exception as e:
@@ -534,6 +556,102 @@ def service(sx, server, body, queued, scripts, fine=0):
 
 
 # ----------------------------------------------------------------------------
+# several application threads blocked in the same kind of call
+# ----------------------------------------------------------------------------
+WAITERS = {     # kind -> (state, call)
+    'resolve': ('sd:fresh', None),
+    'accept': ('dlc:listen', 'accept'),
+    'recv:raw': ('raw:bound', 'recv'),
+    'recv:ldl': ('ldl:bound', 'recvfrom'),
+    'recv:dlc': ('dlc:est', 'recv'),
+    'send:dlc': ('dlc:est', 'send'),
+    'send:raw': ('raw:bound', 'send'),
+    'poll_recv:dlc': ('dlc:est', 'poll_recv'),
+    'poll_acks:dlc': ('dlc:est', 'poll_acks'),
+}
+
+
+def waiters_vs_link(sx, kind, n, scripts):
+    """n application threads (env.coop.ThreadSched: OS threads, one running at
+    a time, descheduled only where they block) sleep in the same kind of call;
+    then the link thread runs its script; the threads that were notified run
+    in every order.  None may be left waiting."""
+    state, call = WAITERS[kind]
+    S = coop.new_threaded(sx)
+    try:
+        return _waiters_vs_link(sx, S, kind, state, call, n, scripts)
+    finally:
+        S.current = 'setup'
+        S.shutdown()
+        coop.new_sched(sx)
+
+
+def _waiters_vs_link(sx, S, kind, state, call, n, scripts):
+    role, script = pick_script(sx, scripts)
+    w = World(sx, role, sym_link_miu=False)
+    sock = w.setup(state)
+    what = "multi:%s" % kind
+    names = ["T%d" % (i + 1) for i in range(n)]
+
+    def body(i):
+        if call is None:
+            return lambda: w.L.resolve(("urn:nfc:sn:x%d" % i).encode("ascii"))
+        return lambda: w.call(call, sock, "t%d" % i)
+    for i, name in enumerate(names):
+        S.spawn(name, body(i))
+    steps = [(nm, w.step(nm, sock)) for nm in script]
+    S.current = 'link'
+    # the threads go to sleep, in each rotation of the order
+    k = sx.pick("first", list(range(n)))
+    for name in names[k:] + names[:k]:
+        S.run(name)
+    if len(S.parked()) == n:
+        sx.reach("multi:all-asleep:" + kind)
+    sched = []
+    ran = []
+
+    def let_run():
+        while True:
+            ready = S.runnable()
+            if not ready:
+                return
+            if len(ready) > 1:
+                sx.reach("multi:several-woken")
+            name = sx.pick("sched%d" % len(sched), ready)
+            sched.append(name)
+            S.run(name)
+    for nm, fn in steps:
+        ran.append(nm)
+        try:
+            fn()
+        except coop.LinkBlocked as e:
+            sx.check(False, "link-thread-blocked:%s:%s" % (nm, e.site))
+        let_run()
+    sx.check(w.L.link.SHUTDOWN, "link-not-shut-down-after-script")
+    left = S.parked()
+    if left:
+        sx.reach("left-waiting")
+        sx.check(False, "left-waiting:%s:%s:%d-of-%d-threads" % (
+            what, S.threads[left[0]].site, len(left), n))
+    out = []
+    for name in names:
+        rec = S.threads[name]
+        e = rec.exc
+        if e is None:
+            out.append(['ret', describe(rec.result)])
+        elif isinstance(e, nfc.llcp.Error):
+            out.append(['err', errno.errorcode.get(e.errno, str(e.errno))])
+        elif isinstance(e, coop.CoopSignal):
+            sx.check(False, "%s:%s:%s" % (type(e).__name__, what, e.args[0]))
+        else:
+            sx.check(False, "raises:%s:%s" % (
+                what, exc_label(e)[len("uncaught:"):]))
+    sx.reach("multi:all-returned:" + kind)
+    return dict(script=script, role=role, sched=sched, out=out,
+                waits=len(S.waits))
+
+
+# ----------------------------------------------------------------------------
 STATES = ['raw:unbound', 'raw:bound', 'raw:data', 'raw:closed',
           'ldl:unbound', 'ldl:bound', 'ldl:connected', 'ldl:data', 'ldl:closed',
           'dlc:unbound', 'dlc:bound', 'dlc:listen', 'dlc:listen+conn',
@@ -592,6 +710,18 @@ def partitions(tier):
             # line granularity
             add("call_vs_link", "%s:fine" % st, state=st, fine=1,
                 scripts=[['ini', ['terminate']], ['tgt', ['loop:remote']]])
+    for kind in sorted(WAITERS):
+        if quick:
+            add("waiters_vs_link", "%s:2" % kind, kind=kind, n=2,
+                scripts=[[default_role(e), [e]] for e in ENDS[:5]])
+        else:
+            for n in (2, 3):
+                add("waiters_vs_link", "%s:%d" % (kind, n), kind=kind, n=n,
+                    scripts=[[role, [e]] for role in ('ini', 'tgt')
+                             for e in ENDS] +
+                    [['tgt', [ev, 'loop:disrupt']]
+                     for ev in CONN_EVENTS.get(WAITERS[kind][0], [])
+                     if ev != 'conn:ui'])
     for server in ('snep', 'handover'):
         ends = ENDS[:5] if quick else ENDS
         one = [[default_role(e), [e]] for e in ends]
@@ -645,7 +775,10 @@ WAITING = ['raw.recv', 'raw.recvfrom', 'raw.send', 'raw.sendto', 'raw.poll_recv'
 LOCKING = WAITING + ['raw.bind', 'raw.close', 'raw.setsockopt', 'raw.send_nb',
                      'ldl.bind', 'ldl.close', 'ldl.connect', 'ldl.send_nb',
                      'dlc.bind', 'dlc.listen', 'dlc.setsockopt', 'dlc.send_nb']
-_MUST = ["later-calls-done", "spawned-thread-ran", "woken-by-link-end"] + \
+_MUST = ["later-calls-done", "spawned-thread-ran", "woken-by-link-end",
+         "multi:several-woken"] + \
+    ["multi:all-asleep:" + k for k in sorted(WAITERS)] + \
+    ["multi:all-returned:" + k for k in sorted(WAITERS)] + \
     ["service:%s.%s" % (a, b) for a in ("snep", "handover")
      for b in ("listen", "serve")] + \
     ["call:%s.%s" % (k, c) for k in sorted(CALLS) for c in CALLS[k]] + \
@@ -660,16 +793,18 @@ MUST_REACH = {
     ["pre:dlc.getsockopt:line", "pre:dlc.getsockname:line"],
 }
 BOUNDS = {
-    "quick": "schedule enumeration, not data: 2 logical threads (one application call, the link thread). Application call: each of send (blocking and MSG_DONTWAIT), sendto, recv, recvfrom, accept, connect (by address and by name), listen, bind, getsockopt, setsockopt, getsockname/getpeername, resolve (bytes and str), poll('recv'/'send'/'acks') without and with time-out, close - on a socket of each suitable kind in each of 25 states reached by <= 5 real set-up operations (raw/ldl: unbound, bound, datagram queued for recv, PDU queued for sending, connected, closed; dlc: unbound, bound, listening with empty / filled backlog, a thread sleeping in connect(), established (passive open through the real listen/dispatch/accept), established with data queued, with an unacknowledged / a not yet collected I PDU (send window full when RW(R)=1), CLOSE_WAIT, a thread sleeping in close(), closed; service discovery fresh / request pending). Link thread: one step that ends the link out of {llc.terminate() called directly, run loop ended by the terminate callback (local choice), MAC exchange returns None (link disruption), DISC received (remote choice), IOError in the MAC (input/output error + SystemExit)} each run through the real run_as_initiator/run_as_target over a scripted MAC, optionally preceded by one event of the conversation delivered by one real run-loop iteration (DISC, DM, FRMR, I with wrong N(S), valid I, UI, CONNECT, CC for the socket under test, SYMM) = 2 preemptions. Preemption points: before the call, every lock acquisition while the application thread holds no lock, inside every Condition.wait(), after every wake-up; all enumerated. After the link ended 16-25 further calls on the same socket. Service bodies SnepServer._listen/_serve and HandoverServer.listen/serve with 0-2 queued connection requests / request fragments, link ended at every preemption point, threads they start run afterwards. Symbolic: where the link thread runs (flags), RW announced by the peer 0..15 (send window open/full), link MIU 128..2175 for connection-less sockets, payload octets, SNEP header version/length octets",
-    "thorough": "as quick with both roles (initiator/target run loop) x all 6 link-ending steps (adds NFC-DEP time-out in exchange) alone and after every listed conversation event (all 2-step scripts), VERIF_SEED-chosen scripts of 3-4 link steps (up to 4 preemptions) for 14 states, and for every state and call a second enumeration at source-line granularity: a preemption point before every line of nfc.llcp.llc/tco/socket and the two server modules that the application thread executes while it holds no lock (terminators: llc.terminate(), remote DISC)",
+    "quick": "schedule enumeration, not data: 2 logical threads (one application call, the link thread). Application call: each of send (blocking and MSG_DONTWAIT), sendto, recv, recvfrom, accept, connect (by address and by name), listen, bind, getsockopt, setsockopt, getsockname/getpeername, resolve (bytes and str), poll('recv'/'send'/'acks') without and with time-out, close - on a socket of each suitable kind in each of 25 states reached by <= 5 real set-up operations (raw/ldl: unbound, bound, datagram queued for recv, PDU queued for sending, connected, closed; dlc: unbound, bound, listening with empty / filled backlog, a thread sleeping in connect(), established (passive open through the real listen/dispatch/accept), established with data queued, with an unacknowledged / a not yet collected I PDU (send window full when RW(R)=1), CLOSE_WAIT, a thread sleeping in close(), closed; service discovery fresh / request pending). Link thread: one step that ends the link out of {llc.terminate() called directly, run loop ended by the terminate callback (local choice), MAC exchange returns None (link disruption), DISC received (remote choice), IOError in the MAC (input/output error + SystemExit)} each run through the real run_as_initiator/run_as_target over a scripted MAC, optionally preceded by one event of the conversation delivered by one real run-loop iteration (DISC, DM, FRMR, I with wrong N(S), valid I, UI, CONNECT, CC for the socket under test, SYMM) = 2 preemptions. Preemption points: before the call, every lock acquisition while the application thread holds no lock, every acquisition of a further lock while it holds one (a link step that then needs the held lock while owning the wanted one = lock-order deadlock), inside every Condition.wait(), after every wake-up; all enumerated. After the link ended 16-25 further calls on the same socket. Service bodies SnepServer._listen/_serve and HandoverServer.listen/serve with 0-2 queued connection requests / request fragments, link ended at every preemption point, threads they start run afterwards. Several waiters: 2 application threads (real call stacks, one running at a time) asleep in the same kind of call - resolve() of different names, accept() on one listening socket, recv()/recvfrom() on one raw / logical-data-link / connection socket, blocking send() on one connection / raw socket, poll('recv'), poll('acks') - in each rotation of the order they went to sleep, then each link-ending step, the woken threads run in every order; none may stay asleep. Symbolic: where the link thread runs (flags), RW announced by the peer 0..15 (send window open/full), link MIU 128..2175 for connection-less sockets, payload octets, SNEP header version/length octets",
+    "thorough": "as quick with 2 and 3 sleeping threads per kind of call (all terminators, both roles, also after a conversation event), both roles (initiator/target run loop) x all 6 link-ending steps (adds NFC-DEP time-out in exchange) alone and after every listed conversation event (all 2-step scripts), VERIF_SEED-chosen scripts of 3-4 link steps (up to 4 preemptions) for 14 states, and for every state and call a second enumeration at source-line granularity: a preemption point before every line of nfc.llcp.llc/tco/socket and the two server modules that the application thread executes while it holds no lock (terminators: llc.terminate(), remote DISC)",
 }
-OUTSIDE = ["more than one application thread at a time (two calls racing on one socket, a second thread calling close() on a socket another thread waits on)",
+OUTSIDE = ["more than one *running* application thread (two calls racing on one socket, a second thread calling close() on a socket another thread waits on); several threads are covered only asleep in the same kind of call when the link ends, descheduled nowhere but in Condition.wait()",
+           "schedules in which a link step has to wait for a lock the application thread owns without a lock-order cycle (pruned, listed as assumption when it occurs; it does not occur on the unchanged tree: the application side never nests two different locks)",
            "preemption of the link thread: a link step (one run-loop iteration, terminate()) is atomic, so interleavings of an application call with the *inside* of terminate()/dispatch()/collect() are not explored (e.g. bind() racing the loop over the service access points)",
            "more than 2 link steps in quick / more than 4 in thorough; preemption inside a line (bytecode granularity) and, in quick, anywhere but lock acquisitions and waits",
            "real OS scheduling, real timing of Condition.wait(timeout), fairness", "LLCP security (DPS exchange, encryption errors ending the run loop)",
            "the return of clf.connect()/llc.run to its caller (C18) and the NFC-DEP deactivation inside terminate() (MAC is a stub)",
            "application callbacks of the servers (process_put_request ...) blocking on their own"]
-ASSUMPTIONS = ["env.coop CoopThreading: RLock/Lock/Condition/Thread of the module attribute `threading` of nfc.llcp.tco, nfc.llcp.llc, nfc.snep.server, nfc.handover.server are replaced in both modes; logical threads in one OS thread; a link step runs to completion at a preemption point of the application thread; Condition.wait() without time-out forces the next link step (nothing else can wake the caller) and is 'left waiting for ever' when the script is exhausted and no notify on that condition happened since the wait began; wait(timeout) returns False after the virtual time-out unless a flag lets a link step run; notify wakes the single waiter; no spurious wake-ups",
+ASSUMPTIONS = ["env.coop ThreadSched (several waiters): application threads are OS threads in strict alternation with the harness's main thread (link thread + scheduler); Condition.notify(n) wakes the first n waiters in FIFO order as threading.Condition does",
+               "env.coop CoopThreading: RLock/Lock/Condition/Thread of the module attribute `threading` of nfc.llcp.tco, nfc.llcp.llc, nfc.snep.server, nfc.handover.server are replaced in both modes; logical threads in one OS thread; a link step runs to completion at a preemption point of the application thread; Condition.wait() without time-out forces the next link step (nothing else can wake the caller) and is 'left waiting for ever' when the script is exhausted and no notify on that condition happened since the wait began; wait(timeout) returns False after the virtual time-out unless a flag lets a link step run; notify wakes the single waiter; no spurious wake-ups",
                "a link step that reaches Condition.wait() without time-out is reported as 'link thread blocked' (only an application thread could wake it; with one application call under test none does)",
                "MAC below the run loop: instance of nfc.dep.Initiator/Target created without __init__, exchange() scripted (frame, None, IOError, nfc.clf.TimeoutError), deactivate() no-op; one link step = the real run loop left (BaseException) where it asks for the frame after the scripted one - a PDU collected for that exchange is dropped",
                "sockets in ESTABLISHED state come from the real passive open (listen, dispatch CONNECT, accept); 'a thread sleeping in connect()/close()/resolve()' = the call made by the set-up thread and abandoned at its wait()",
